@@ -8,7 +8,7 @@ from ..astutil import call_name, calls_in, dotted, guard_atoms, lexical_guards, 
 from ..cfg import no_exc
 from ..report import Registry, chain, sub
 from ._helpers_rob_a import helper_callers
-from ._helpers_rob_h1 import local_defs, nform, reachable_methods, tri_edges
+from ._helpers_rob_h1 import local_defs, nform, reachable_methods, tri, tri_edges
 
 R = Registry(
     "C52",
@@ -310,6 +310,24 @@ def r3(ctx):
             cn = [i for c in closes for i in g.nodes_containing(c)]
             if cn and set(cn) & g.reachable(clears, edge_ok=no_exc, include_starts=False):
                 probs.append("close() can run after clear() (it would close a newly created session)")
+        if closes:
+            # "remove() closes the current scope's Session": when one is present, EVERY normal path attempts the close.
+            # Scenario evaluation: has() is true, the resolved session is an object (`if sess is not None:` decides
+            # nothing); the branch outcomes the scenario refutes are cut, whatever the spelling of the test
+            def present(e):
+                if isinstance(e, ast.Call) and call_name(e) == "self.registry.has" and not e.args and not e.keywords:
+                    return True
+                return True if is_current(e) else None
+            cut = tri_edges(g, present)
+            cn = [i for c in closes for i in g.nodes_containing(c)]
+            w = g.witness([g.entry], [g.exit], avoid=cn, edge_ok=lambda a, b, l: l != "exc" and (a, l) not in cut)
+            if w is not None:
+                extra = sorted({a + ("" if p else " is false") for c in closes for a, p in _atoms_at(g, c)
+                                if a != "self.registry.has()"})
+                probs.append("with a session present in the current scope a normal path leaves remove() without closing it"
+                             + (f" (close() additionally depends on {extra}; " if extra else " (")
+                             + "path: " + " -> ".join(g.describe_path(w)[-4:]) + "): the session is dropped from the "
+                             "registry still owning its objects and resources")
         ctx.check(not probs, f.key, "; ".join(probs), "has() -> close(); clear()", f.loc)
     for key_, tl in ((SR, False), (TL, True)):
         f = ctx.method(key_, "clear")     # through the MRO: an inherited clear() is judged as what it is
@@ -333,9 +351,16 @@ def r4(ctx):
         kinds = {}
         gi = ctx.cfg(f)
 
+        def alternatives(v, fact):
+            """the values a (nested) conditional expression can take under the facts: `A if c else B` is `if c: A else: B`"""
+            if isinstance(v, ast.IfExp):
+                t = tri(v.test, fact)
+                return ([] if t is False else alternatives(v.body, fact)) + ([] if t is True else alternatives(v.orelse, fact))
+            return [v]
+
         def scenario(given):
             """registry classes whose assignment is reachable when scopefunc is / is not given -- the test may be spelled
-            `if scopefunc:`, `if scopefunc is None:` (inverted), `if not scopefunc: ... return`"""
+            `if scopefunc:`, `if scopefunc is None:` (inverted), `if not scopefunc: ... return`, `A if scopefunc else B`"""
             def fact(e):
                 if isinstance(e, ast.Name) and e.id == "scopefunc":
                     return given
@@ -346,22 +371,27 @@ def r4(ctx):
                 return None
             cut = tri_edges(gi, fact)
             r = gi.reachable([gi.entry], edge_ok=lambda a, b, l: l != "exc" and (a, l) not in cut)
-            return sorted({(call_name(a.value) or "").split(".")[-1] for a in assigns if isinstance(a.value, ast.Call)
-                           and set(gi.nodes_for(a)) & r})
+            return sorted({(call_name(v) or "").split(".")[-1] for a in assigns if set(gi.nodes_for(a)) & r
+                           for v in alternatives(a.value, fact) if isinstance(v, ast.Call)})
         for a in assigns:
-            if not isinstance(a.value, ast.Call):
-                probs.append(f"registry assigned from `{unparse(a.value)}`")
-                continue
-            k = (call_name(a.value) or "").split(".")[-1]
-            kinds[k] = guard_atoms(lexical_guards(pm, a, stop=f.node))
-            if not a.value.args or unparse(a.value.args[0]) != "session_factory":
-                probs.append(f"{k} is not fed with session_factory")
-            if k == "ScopedRegistry" and (len(a.value.args) < 2 or unparse(a.value.args[1]) != "scopefunc"):
-                probs.append("ScopedRegistry is not given the scopefunc")
+            for v in alternatives(a.value, lambda e: None):
+                if not isinstance(v, ast.Call):
+                    probs.append(f"registry assigned from `{unparse(v)}`")
+                    continue
+                k = (call_name(v) or "").split(".")[-1]
+                kinds[k] = guard_atoms(lexical_guards(pm, a, stop=f.node)) + ([("<conditional expression>", True)] if v is not a.value else [])
+                if not v.args or unparse(v.args[0]) != "session_factory":
+                    probs.append(f"{k} is not fed with session_factory")
+                if k == "ScopedRegistry" and (len(v.args) < 2 or unparse(v.args[1]) != "scopefunc"):
+                    probs.append("ScopedRegistry is not given the scopefunc"
+                                 + (f" but `{unparse(v.args[1])}`" if len(v.args) > 1 else ""))
         optional = "scopefunc" in [x.arg for x, d in zip(f.node.args.args[-len(f.node.args.defaults):], f.node.args.defaults)] if f.node.args.defaults else False
         if optional:
             if scenario(True) != ["ScopedRegistry"] or scenario(False) != ["ThreadLocalRegistry"]:
-                probs.append(f"registry kind does not follow scopefunc: given -> {scenario(True)}, not given -> {scenario(False)}")
+                probs.append(f"registry kind does not follow scopefunc: given -> {scenario(True)}, not given -> {scenario(False)}"
+                             + (" (the default scope must be the thread-LOCAL registry: a dict keyed by anything that "
+                                "identifies a thread outlives the thread and hands its session to the next thread with a "
+                                "recycled identifier)" if scenario(False) != ["ThreadLocalRegistry"] else ""))
         else:
             if list(kinds) != ["ScopedRegistry"] or kinds["ScopedRegistry"]:
                 probs.append(f"mandatory scopefunc must always select ScopedRegistry: {kinds}")
@@ -949,3 +979,50 @@ R.mutant("rob-scoped-key-getter-constant", UC,
                sub("    def has(self) -> bool:\n        \"\"\"Return True if an object is present in the current scope.\"\"\"\n",
                    "    def _key(self) -> Any:\n        return None\n\n    def has(self) -> bool:\n"
                    "        \"\"\"Return True if an object is present in the current scope.\"\"\"\n")), "C52-R1")
+
+# ---- round-2 seeds (str2-v)
+_INIT_OLD = ("        if scopefunc:\n            self.registry = ScopedRegistry(session_factory, scopefunc)\n        else:\n"
+             "            self.registry = ThreadLocalRegistry(session_factory)\n")
+# C52_3: default scope keyed on the (recycled) thread identifier in a plain ScopedRegistry  -> C52-R4 (caught as is)
+R.mutant("seed2-init-default-scope-keyed-on-thread-ident", "orm/scoping.py",
+         chain(sub("from typing import Any\n", "import threading\nfrom typing import Any\n", count=1),
+               sub(_INIT_OLD, "        self.registry = ScopedRegistry(\n            session_factory, scopefunc or threading.get_ident\n        )\n")),
+         "C52-R4")
+R.mutant("init-else-branch-scoped-on-thread-ident", "orm/scoping.py",
+         chain(sub("from typing import Any\n", "import threading\nfrom typing import Any\n", count=1),
+               sub("            self.registry = ThreadLocalRegistry(session_factory)\n",
+                   "            self.registry = ScopedRegistry(session_factory, threading.get_ident)\n")), "C52-R4")
+R.mutant("init-conditional-expression-kinds-swapped", "orm/scoping.py",
+         sub(_INIT_OLD, "        self.registry = (\n            ThreadLocalRegistry(session_factory)\n            if scopefunc\n"
+                        "            else ScopedRegistry(session_factory, scopefunc)\n        )\n"), "C52-R4")
+R.mutant("benign-init-registry-kind-conditional-expression", "orm/scoping.py",
+         sub(_INIT_OLD, "        self.registry = (\n            ScopedRegistry(session_factory, scopefunc)\n            if scopefunc\n"
+                        "            else ThreadLocalRegistry(session_factory)\n        )\n"), None)
+R.mutant("benign-init-registry-kind-early-return", "orm/scoping.py",
+         sub(_INIT_OLD, "        if not scopefunc:\n            self.registry = ThreadLocalRegistry(session_factory)\n            return\n"
+                        "        self.registry = ScopedRegistry(session_factory, scopefunc)\n"), None)
+# C52_4: remove() closes the present session only under a further condition  -> C52-R3 (close on every path when present)
+R.mutant("seed2-remove-closes-only-in-transaction", "orm/scoping.py",
+         sub(_REMOVE_OLD, "        if self.registry.has():\n            sess = self.registry()\n            if sess.in_transaction():\n"
+                          "                sess.close()\n        self.registry.clear()\n"), "C52-R3")
+R.mutant("remove-close-needs-second-condition-in-same-test", "orm/scoping.py",
+         sub(_REMOVE_OLD, "        if self.registry.has() and self.registry().is_active:\n            self.registry().close()\n"
+                          "        self.registry.clear()\n"), "C52-R3")
+R.mutant("async-remove-early-return-skips-close", "ext/asyncio/scoping.py",
+         sub("        if self.registry.has():\n            await self.registry().close()\n        self.registry.clear()\n",
+             "        if self.registry.has():\n            sess = self.registry()\n            if not sess.in_transaction():\n"
+             "                self.registry.clear()\n                return\n            await sess.close()\n        self.registry.clear()\n"), "C52-R3")
+R.mutant("remove-close-in-helper-with-extra-condition", "orm/scoping.py",
+         sub(_REMOVE_OLD, "        if self.registry.has():\n            self._close_current()\n        self.registry.clear()\n\n"
+                          "    def _close_current(self) -> None:\n        sess = self.registry()\n        if sess.dirty:\n            sess.close()\n"),
+         "C52-R3")
+R.mutant("benign-remove-close-in-helper", "orm/scoping.py",
+         sub(_REMOVE_OLD, "        if self.registry.has():\n            self._close_current()\n        self.registry.clear()\n\n"
+                          "    def _close_current(self) -> None:\n        sess = self.registry()\n        sess.close()\n"), None)
+R.mutant("benign-remove-inverted-branch-none-check", "orm/scoping.py",
+         sub(_REMOVE_OLD, "        if not self.registry.has():\n            pass\n        else:\n            sess = self.registry()\n"
+                          "            if sess is not None:\n                sess.close()\n        self.registry.clear()\n"), None)
+R.mutant("benign-async-remove-presence-local-nested", "ext/asyncio/scoping.py",
+         sub("        if self.registry.has():\n            await self.registry().close()\n        self.registry.clear()\n",
+             "        present = self.registry.has()\n        if present:\n            current = self.registry()\n"
+             "            await current.close()\n        self.registry.clear()\n"), None)
